@@ -3,7 +3,13 @@ import Req.H3.Varint
 HTTP/3 frame layer of `internal/http3/frames.go` (fork of quic-go v0.48 http3):
 
 * `parseNext`            — `frameParser.ParseNext` with `unknownFrameHandler == nil`, on an in-memory
-                            stream: type varint, length varint, DATA/HEADERS returned by header only,
+                            stream, following the repaired fork (/repo 690148e, fixes/C03-3): the end of
+                            the stream exactly at a frame boundary is `eof` (clean end), the end after at
+                            least one byte of a frame — inside the type varint, anywhere in the length
+                            varint, inside a SETTINGS payload, inside a skipped frame — is
+                            `unexpectedEOF` (RFC 9114 §7.1: truncated frame). quic-go v0.48 still reports
+                            `io.EOF` there; the lanes compare modulo exactly that.
+                            Type varint, length varint, DATA/HEADERS returned by header only,
                             SETTINGS parsed, CANCEL_PUSH/PUSH_PROMISE/GOAWAY/MAX_PUSH_ID and unknown
                             (incl. greased) types skipped, the four types reserved by RFC 9114 §7.2.8
                             (0x2, 0x6, 0x8, 0x9) rejected.
@@ -33,7 +39,8 @@ inductive Frame where
   deriving DecidableEq, Repr
 
 inductive Err where
-  | eof                       -- io.EOF (stream ended inside a frame header, a skipped frame or SETTINGS)
+  | eof                       -- io.EOF: `ParseNext`: the stream ended at a frame boundary; `parseSettingsFrame` called directly: short payload
+  | unexpectedEOF             -- io.ErrUnexpectedEOF: `ParseNext`: the stream ended inside a frame (header, SETTINGS payload, skipped frame)
   | reserved (t : Nat)        -- "http3: reserved frame type" (+ H3_FRAME_UNEXPECTED on the connection)
   | settingsTooLarge          -- "unexpected size for SETTINGS frame"
   | duplicateSetting (id : Nat)
@@ -88,22 +95,28 @@ def parseSettingsFrame (l : Nat) (input : Bytes) : Except Err Frame × Bytes :=
 /-- the four frame types of HTTP/2 that RFC 9114 reserves. -/
 def isReservedType (t : Nat) : Bool := t == 2 || t == 6 || t == 8 || t == 9
 
+/-- `truncatedFrame(err, consumed)` with `consumed > 0`: an `io.EOF` inside a frame is
+`io.ErrUnexpectedEOF`; every other error is passed on. -/
+def truncated : Except Err Frame × Bytes → Except Err Frame × Bytes
+  | (.error .eof, rest) => (.error .unexpectedEOF, rest)
+  | r => r
+
 /-- `frameParser.ParseNext` (no unknown-frame handler). `fuel` bounds the number of skipped
 frames (each consumes at least two bytes). -/
 def parseNext : Nat → Bytes → Except Err Frame × Bytes
   | 0, input => (.error .eof, input)
   | fuel + 1, input =>
     match read input with
-    | .error _ => (.error .eof, [])
+    | .error _ => (.error (if input.isEmpty then .eof else .unexpectedEOF), [])
     | .ok (t, r1) =>
       match read r1 with
-      | .error _ => (.error .eof, [])
+      | .error _ => (.error .unexpectedEOF, [])
       | .ok (l, r2) =>
         if t = 0 then (.ok (.data l), r2)
         else if t = 1 then (.ok (.headers l), r2)
-        else if t = 4 then parseSettingsFrame l r2
+        else if t = 4 then truncated (parseSettingsFrame l r2)
         else if isReservedType t then (.error (.reserved t), r2)
-        else if r2.length < l then (.error .eof, [])
+        else if r2.length < l then (.error .unexpectedEOF, [])
         else parseNext fuel (r2.drop l)
 
 /-! ### writers -/
